@@ -128,3 +128,78 @@ def build(tier):
         "cyclic graph is characterised as: no dependency-first order exists",
     ]
     return [u]
+
+
+# ------------------------------------------------------------------------------------------------------
+# U22.2 bounded cross-check on the real petgraph: no assumed contract, concrete counterexample graphs
+# ------------------------------------------------------------------------------------------------------
+KENV = r'''
+#![allow(unused, dead_code, unused_macros, clippy::all)]
+pub mod anyhow { #[derive(Debug)] pub struct Error; pub type Result<T> = core::result::Result<T, Error>; }
+macro_rules! anyhow { ($($t:tt)*) => { crate::anyhow::Error } }
+use crate::anyhow::Result;
+/// shim of pkg::Node (Pinned): only the name is read, by the error-message closure
+pub struct Node { pub name: u8 }
+pub type Graph = petgraph::stable_graph::StableGraph<Node, ()>;
+pub type NodeIx = petgraph::graph::NodeIndex;
+// ---- extracted from forc-pkg/src/pkg.rs (R6: the map_err closure that renders the cycle path returns the unit error) ----
+@FN@
+#[cfg(kani)]
+mod h {
+    use super::*;
+    /// all graphs with N nodes, any edge set incl. self loops (edge bits enumerated concretely: heap collections of symbolic shape are unaffordable)
+    fn check(n: usize, bits: u32) {
+        let mut g = Graph::default();
+        let mut ix = [NodeIx::new(0); 3];
+        let mut i = 0; while i < n { ix[i] = g.add_node(Node { name: i as u8 }); i += 1; }
+        let mut e = [[false; 3]; 3];
+        let (mut a, mut k) = (0, 0);
+        while a < n { let mut b = 0; while b < n { if bits >> k & 1 == 1 { e[a][b] = true; g.add_edge(ix[a], ix[b], ()); } k += 1; b += 1; } a += 1; }
+        // reference: the graph is acyclic iff some permutation puts every dependency first (n <= 3: check by closure)
+        let mut reach = e;
+        let mut m = 0; while m < n { let mut a = 0; while a < n { let mut b = 0; while b < n { if reach[a][m] && reach[m][b] { reach[a][b] = true; } b += 1; } a += 1; } m += 1; }
+        let mut cyclic = false; let mut a = 0; while a < n { cyclic |= reach[a][a]; a += 1; }
+        match compilation_order(&g) {
+            Ok(o) => {
+                assert!(!cyclic, "OB: a cyclic graph must be rejected, not ordered");
+                assert!(o.len() == n, "OB: the order lists every package exactly once");
+                let mut pos = [usize::MAX; 3];
+                let mut i = 0; while i < o.len() { let x = o[i].index(); assert!(x < n && pos[x] == usize::MAX, "OB: the order lists every package exactly once"); pos[x] = i; i += 1; }
+                let mut a = 0; while a < n { let mut b = 0; while b < n { if e[a][b] { assert!(pos[b] < pos[a], "OB: a dependency must come before its dependent"); } b += 1; } a += 1; }
+            }
+            Err(_) => assert!(cyclic, "OB: an acyclic graph must be ordered, not rejected"),
+        }
+    }
+    @HARNESSES@
+}
+'''
+
+
+def build_kani(tier):
+    fr = vf.extract([{"id": "co", "file": "forc-pkg/src/pkg.rs", "locator": {"kind": "fn", "name": "compilation_order", "attrs": "strip"}}])["co"]
+    text = fr["text"]
+    log = []
+    cl = fr["closures"]
+    outer = [c for c in cl if not any(o["start"] < c["start"] and c["end"] <= o["end"] for o in cl if o is not c)]
+    msg = [c for c in outer if "anyhow!" in text[c["body_start"]:c["body_end"]]]
+    if len(msg) == 1:
+        c = msg[0]
+        text = text[:c["body_start"]] + "{ crate::anyhow::Error }" + text[c["body_end"]:]
+        log.append({"rule": "R6", "before": "closure body building the cycle-path message", "after": "{ Error }", "times": 1})
+    hs, obs = [], []
+    sizes = [(1, 2), (2, 16)] if tier == "quick" else [(1, 2), (2, 16), (3, 512)]
+    for n, cnt in sizes:
+        step = 64
+        for lo in range(0, cnt, step):
+            hi = min(cnt, lo + step)
+            nm = "order_n%d_%d" % (n, lo)
+            hs.append("#[kani::proof] #[kani::unwind(%d)] fn %s() { let mut b = %du32; while b < %d { check(%d, b); b += 1; } }" % (max(hi - lo, 8) + 2, nm, lo, hi, n))
+            obs.append(vf.Ob(nm, "C22", complete=False, bound="all graphs with %d node(s), edge sets #%d..%d of %d (self loops included), on the real petgraph %s" % (n, lo, hi - 1, cnt, "0.6"),
+                             what="compilation_order on the real petgraph: Ok => permutation with dependencies first, Err <=> cyclic"))
+    src = KENV.replace("@FN@", text).replace("@HARNESSES@", "\n    ".join(hs))
+    u = vf.KaniUnit("c22_petgraph", {"src/lib.rs": src}, obs, deps={"petgraph": "0.6"}, timeout_s=1500, jobs=4, auto_files=["forc-pkg/src/pkg.rs"])
+    u.fragments = [vf.frag_record(fr)]
+    u.rewrites = log
+    u.assumptions = ["pkg::Graph instantiated with a node weight that carries only a name; edge weight ()"]
+    u.heavy = True
+    return [u]
